@@ -1,5 +1,6 @@
 import BSModel.Proofs.Text
 import BSModel.Proofs.TextHeap
+import BSModel.Proofs.TextIter
 import BSModel.Props.C01
 import BSModel.Props.C03
 import BSModel.Gen.Text
@@ -796,5 +797,138 @@ example : allStringsIterImpl false [.comment, .navigableString]
   constructor
   · simp [allStringsIterImpl, walk_eq_pre, preL, preN, iterWalk, iterIn, tagKeep, Types.keeps]
   · rw [types_arg_exact]; decide
+
+/-! ## 12. a `Tag` (or `BeautifulSoup`) subclass with its own `MAIN_CONTENT_STRING_TYPES`; pickling -/
+
+/-- An element whose class overrides `MAIN_CONTENT_STRING_TYPES` with `cm` (installed through
+    `element_classes={Tag: Sub}`, or a `BeautifulSoup` subclass): built with a builder under an ordinary name, or
+    builder-less with `interesting_string_types=None`, it counts exactly the classes in `cm` — whatever the stock
+    classes count; a container name still gives the container's own class. -/
+theorem subclass_main (mn cm : List StrClass) (strp : Bool) (cont : List (PStr × StrClass)) (nm : PStr) (kids : List Node) :
+    (cont.lookup nm = none →
+      allStringsImpl mn strp .dflt (.tag nm (interestingFor cm cont nm) kids) =
+        pieces strp (textOfL (fun c => cm.contains c) kids)) ∧
+    allStringsImpl mn strp .dflt (.tag nm (Interesting.ofClass cm .none) kids) =
+      pieces strp (textOfL (fun c => cm.contains c) kids) ∧
+    (∀ c, cont.lookup nm = some c →
+      allStringsImpl mn strp .dflt (.tag nm (interestingFor cm cont nm) kids) = pieces strp (textOfL (fun d => d == c) kids)) := by
+  refine ⟨?_, ?_, ?_⟩
+  · intro h
+    rw [allStrings_eq_spec]
+    simp only [interestingFor, h, resolveTag]
+    rfl
+  · rw [allStrings_eq_spec]
+    simp only [Interesting.ofClass, resolveTag]
+    rfl
+  · intro c h
+    rw [allStrings_eq_spec]
+    simp only [interestingFor, h, resolveTag]
+    rw [textOfL_congr _ (fun d => d == c) (fun d => by first | rfl | (simp only [Types.keeps, List.contains_cons, List.contains_nil, Bool.or_false]))]
+
+/-- the subclass's set is what `Tag.__init__` stores for parsed tags and `new_tag` (the `main` argument of the mirror is
+    `self.MAIN_CONTENT_STRING_TYPES`, not `Tag.MAIN_CONTENT_STRING_TYPES`) -/
+example : tagInitInteresting [.navigableString, .cData, .comment] (some (some containers)) (ofS "div") .none =
+    .ok (.many [.navigableString, .cData, .comment]) := by decide
+example : allStringsImpl main false .dflt (.tag (ofS "div") (interestingFor [.navigableString, .cData, .comment] containers (ofS "div"))
+    [.str .navigableString (ofS "a"), .str .comment (ofS "b"), .str .script (ofS "s")]) = [ofS "a", ofS "b"] := by
+  rw [allStrings_eq_spec]; decide
+example : allStringsImpl main false .dflt (.tag (ofS "x") (Interesting.ofClass [.comment] .none)
+    [.str .navigableString (ofS "a"), .str .comment (ofS "b")]) = [ofS "b"] := by
+  rw [allStrings_eq_spec]; decide
+
+/-- Pickling: a picklable builder (html.parser) travels with the document, configuration included, so the re-parse on
+    unpickling and `new_tag` afterwards follow the same `string_containers`; for a builder that is not picklable only
+    its class is kept and the class defaults apply (recorded). -/
+theorem pickle_keeps_config (dflt : List (PStr × StrClass)) (sc : Option (List (PStr × StrClass))) (mn : List StrClass)
+    (nm : PStr) :
+    pickledStringContainers true dflt sc = sc ∧
+    newTagInteresting mn (pickledStringContainers true dflt sc) nm = newTagInteresting mn sc nm ∧
+    pickledStringContainers false dflt sc = some dflt := ⟨rfl, rfl, rfl⟩
+
+/-! ## 13. the consumer edits the string it was just handed (histories of (yield, edit) steps)
+
+`stringsIterEditFrom` (Model/TextHeap.lean) is `for s in tag._all_strings(False, types): <edit>` on the pointer heap:
+the generator `Tag.descendants` reads `successor = current.next_element` **before** `yield current`. -/
+section iteration
+open BS.Heap
+
+/-- **Extracting the string just handed out does not end or derail the iteration.** On a consistent heap, whatever
+    subset of the strings the consumer extracts as it receives them, the iteration hands out exactly the interesting
+    strings that were beneath the element when it started, in document order (the ids behind `allStringsHeap`). -/
+theorem iteration_survives_extract {h : Heap} (hg : Good h) (mn : List StrClass) (L : Labels) (types : TypesArg) (x : Nat)
+    (edit : Heap → Nat → Nat → Option Op) (hedit : ∀ hh k c, edit hh k c = none ∨ edit hh k c = some (.extract c))
+    (l : List Nat) (h' : Heap) (hr : stringsIterEditFrom mn L types edit h.cap h x = .ok (l, h')) :
+    ∃ ds, descendants h x = .ok ds ∧ l = ds.filter (heapKeeps mn L types x h) := by
+  obtain ⟨w, hwf⟩ := hg
+  unfold stringsIterEditFrom at hr
+  cases hs : genStart h x with
+  | error e => simp only [hs] at hr; cases hr
+  | ok o =>
+    cases o with
+    | none =>
+      simp only [hs] at hr; cases hr
+      exact ⟨[], (genStart_descendants h x).2 hs, rfl⟩
+    | some st =>
+      simp only [hs] at hr
+      refine ⟨genList h h.cap st, (genStart_descendants h x).1 st hs, ?_⟩
+      have hinv : IterInv h st := by
+        refine ⟨⟨w, hwf⟩, ?_⟩
+        intro a ha
+        unfold genStart at hs
+        cases hk : (h.kids x).head? with
+        | none => simp [hk] at hs
+        | some first =>
+          simp only [hk] at hs
+          cases hl : lastDescendant h x true with
+          | error e => simp [hl] at hs
+          | ok last =>
+            simp only [hl, Except.ok.injEq, Option.some.injEq] at hs
+            subst hs
+            simp only [Option.some.injEq] at ha
+            subst ha
+            have hm : first ∈ h.kids x := List.mem_of_mem_head? hk
+            rw [hwf.kid_parent x first hm]; simp
+      exact stringsIterEdit_eq (heapKeeps mn L types x) edit IterInv iterInv_next
+        (fun hh st0 c st' k op h1 hI hgn hk he hstep => by
+          rcases hedit hh k c with hn | hx
+          · rw [hn] at he; cases he
+          · rw [hx] at he; cases he
+            exact extract_frame mn L types x hh st0 c st' h1 hI hgn hk hstep)
+        h.cap h st 0 l h' hinv hr
+
+/-- For *any* editing calls: if each edit, made while the generator is suspended, has the frame property (`EditFrame`:
+    the remaining walk and the filter's verdicts are unchanged), the interleaved iteration hands out what the undisturbed
+    one does. Full statement (not proved): every call of C01's alphabet applied to the string just handed out
+    (`replace_with`, `insert_before/after`, `wrap`, `decompose`, …) has the frame property on a consistent heap. Proved
+    for `extract` (`iteration_survives_extract`); missing for the others is the analogue of `extract_ne_after` for the
+    paste witness of `Tag._insert` (they are `extract` + `_insert` of other nodes). The correspondence streams
+    `heap-iter` and `tree-iter` run all of them against the real code. -/
+theorem iteration_survives_framed_edits_partial (keep : Heap → Nat → Bool) (edit : Heap → Nat → Nat → Option Op)
+    (Inv : Heap → GenSt → Prop) (hnext : ∀ h st c st', Inv h st → genNext h st = some (c, st') → Inv h st')
+    (hedit : ∀ h st c st' k op h1, Inv h st → genNext h st = some (c, st') → keep h c = true → edit h k c = some op →
+      step h op = .ok h1 → Inv h1 st' ∧ EditFrame keep h h1 st')
+    (f : Nat) (h : Heap) (st : GenSt) (k : Nat) (l : List Nat) (h' : Heap) (hI : Inv h st)
+    (hr : stringsIterEdit keep edit f h st k = .ok (l, h')) : l = (genList h f st).filter (keep h) :=
+  stringsIterEdit_eq keep edit Inv hnext hedit f h st k l h' hI hr
+
+/-- the undisturbed generator is `Tag.descendants` -/
+theorem generator_is_descendants (h : Heap) (x : Nat) (st : GenSt) (hs : genStart h x = .ok (some st)) :
+    descendants h x = .ok (genList h h.cap st) := (genStart_descendants h x).1 st hs
+
+/-- non-vacuity: on the demo heap every string of the document is extracted as it is handed out; all four are handed
+    out, in document order, and the document ends up without strings -/
+example : (demoHeap.toOption.bind fun h =>
+    (stringsIterEditFrom main demoLabels .none (fun _ _ c => some (.extract c)) h.cap h 0).toOption.map
+      (fun r => (r.1, r.2.kids 1, r.2.kids 3))) = some ([6, 4, 2, 5], [3], []) := by decide +kernel
+/-- … and replacing each by a new plain string (the library allocates nodes 7..10) hands out the same four -/
+example : (demoHeap.toOption.bind fun h =>
+    (stringsIterEditFrom main demoLabels .none (fun _ k c => some (.replaceWith c [.plain [100 + k]])) h.cap h 0).toOption.map
+      (fun r => (r.1, r.2.kids 1, r.2.kids 3))) = some ([6, 4, 2, 5], [7, 3, 10], [8, 9]) := by decide +kernel
+/-- reading the successor only AFTER the consumer had the element (the seeded change) ends the iteration at once: the
+    extracted string has no `next_element` any more -/
+example : (demoHeap.toOption.bind fun h => (extract h 6).toOption.map (fun h1 => (h.ne 6, h1.ne 6))) =
+    some (some 3, none) := by decide +kernel
+
+end iteration
 
 end BS.Props.C13
